@@ -886,7 +886,8 @@ static const int vfr_dims[VFR_NDIM][2] = { { 1, 1 }, { 2, 2 }, { 1, 2 },
 enum { FO_SOLVE, FO_ADDCAL, FO_SAVE_LOAD, FO_APPLY0, FO_GETTERS,
     FO_PROPS, FO_M_ERROR, FO_M_ERROR_GRID, FO_SET_Z0, FO_SETTINGS,
     FO_ADD_EACH, FO_ADD_AB_EACH, FO_PARAMS, FO_DEL_PREDEF, FO_SOLVE_TWICE,
-    FO_ADD_ABBREV, FO_CORR_MERR, FO_TRL_ONEPORT, FO_UNKNOWN_READ, FO_NOP };
+    FO_ADD_ABBREV, FO_CORR_MERR, FO_TRL_ONEPORT, FO_UNKNOWN_READ,
+    FO_MERR_UNEVEN, FO_NOP };
 static const char *const vfo_name[FO_NOP] = {
     "solve", "add_calibration", "save + load", "apply calibration 0",
     "every vnacal getter at ci -1..1", "properties at ci -1 and 0",
@@ -900,6 +901,8 @@ static const char *const vfo_name[FO_NOP] = {
 	"transmission, solve",
     "short, open, match and an unknown reflect on port 1, solve, read the "
 	"unknown at, between and far from the calibration frequencies",
+    "error model, short, open, match on ports 1 and 2, through, two more "
+	"known reflects on port 2 only (systems of unequal size), solve",
 };
 
 static void vfr_query(vnacal_t *vcp)
@@ -1116,6 +1119,27 @@ static void run_vfr(long idx, vf_result *r)
 		(void)vnacal_new_solve(vnp);
 		(void)vnacal_get_parameter_value(vcp, pc, F->f3[0]);
 		(void)vnacal_delete_parameter(vcp, pc);
+	    }
+	    break;
+	case FO_MERR_UNEVEN:
+	    if (vnp) {
+		static const int sol[3] = { VNACAL_SHORT, VNACAL_OPEN,
+		    VNACAL_MATCH };
+		int e1 = vnacal_make_scalar_parameter(vcp, 0.4 - 0.3 * I);
+		int e2 = vnacal_make_scalar_parameter(vcp, -0.2 + 0.6 * I);
+		(void)vnacal_new_set_m_error(vnp, NULL, 1, sig1, sig1);
+		for (int port = 1; port <= 2; ++port)
+		    for (int k = 0; k < 3; ++k)
+			(void)vnacal_new_add_single_reflect_m(vnp, F->mp,
+				rows, cols, sol[k], port);
+		(void)vnacal_new_add_through_m(vnp, F->mp, rows, cols, 1, 2);
+		(void)vnacal_new_add_single_reflect_m(vnp, F->mp, rows, cols,
+			e1, 2);
+		(void)vnacal_new_add_single_reflect_m(vnp, F->mp, rows, cols,
+			e2, 2);
+		(void)vnacal_new_solve(vnp);
+		(void)vnacal_delete_parameter(vcp, e1);
+		(void)vnacal_delete_parameter(vcp, e2);
 	    }
 	    break;
 	case FO_TRL_ONEPORT:
